@@ -190,6 +190,12 @@ def c16(res: CheckResult) -> None:
               list(F.fam_order_mixed_async(res.tier, rng)), ic)
     def_unit(res, "invariants accumulated along hierarchies incl. diamonds: the first falsy one in the order base before "
                   "derived is blamed", list(DF.fam_inv_lists(res.tier, rng)), ic, verdicts=True, rng=rng)
+    def_unit(res, "overrides carrying foreign functools.wraps decorators in hierarchies: inherited groups first, the error "
+                  "of the last group tried", list(DF.fam_foreign_hier(res.tier, rng)), ic, verdicts=True, rng=rng)
+    setattr_progs = [p for p in F.fam_inv(res.tier, rng) if any(f["kind"] == "setattr" for f in p["fn"])]
+    rng.shuffle(setattr_progs)
+    call_unit(res, "assignments under SETATTR invariants (own __setattr__): invariants-before, body, invariants-after",
+              setattr_progs[:500 if res.tier == "quick" else 5000], ic)
     # a violated lambda condition is re-evaluated once for the message: every operand at most once more
     from icv import exprcheck as E
     cases = E.make_cases(E.fam_typeof(rng), rng, envs_per_expr=0)
